@@ -29,7 +29,8 @@ LEVEL_NOTE = ("trusts pvf/ref/ctlbytes.py (wire layouts) and pvf/ref/swshadow.py
               "state change precedes the probe")
 RULE = ("a case is (max_buffers, miss_send_len, segment sizes, list of ops) for a switch with 3 ports; an op is one controller-to-switch message "
         "(hello, echo request/reply, vendor, features, get-config, set-config, barrier, port-mod, flow-mod, packet-out, stats request of "
-        "the 7 types or an unknown one, queue-get-config, unknown message type, a fixed-size request with an over-long or truncated body) with an arbitrary xid and a valid or invalid body, or a "
+        "the 7 types or an unknown one, queue-get-config, unknown message type, a fixed-size request with an over-long or truncated body, a message of a type that only a switch sends, an error message, "
+        "a request of up to 65535 bytes, a flow-mod with up to 8179 actions) with an arbitrary xid and a valid or invalid body, or a "
         "frame arrival; a case is non-trivial when it uses at least 3 different message types and contains an invalid request (one for "
         "which OF 1.0 names an error) that is followed by a request which must be answered with a proper reply; distinct by SHA-1 of the "
         "canonical JSON of the case")
@@ -44,6 +45,13 @@ ASSUMPTIONS = [
   "a vendor action may be refused as BAD_TYPE or BAD_VENDOR, a vendor stats request as BAD_STAT or BAD_VENDOR; a buffer id that was already "
   "used must be refused as BUFFER_EMPTY, one that was never issued (zero, out of range) as BUFFER_UNKNOWN; a flow-mod with an unknown action type may be refused as BAD_ACTION or FLOW_MOD_FAILED/UNSUPPORTED",
   "error data must be a prefix of the offending request of at least min(64, its length) bytes",
+  "a message of a type that only a switch sends (features / get-config / stats / barrier / queue-get-config reply, packet-in, flow-removed, "
+  "port-status) is an unsupported request: OFPBRC_BAD_TYPE ('ofp_header.type not supported'), or OFPBRC_BAD_LEN as well when its body is "
+  "not of that type's size; an OFPT_ERROR sent to the switch asks for nothing (nothing or one error accepted, no internal failure)",
+  "ofp_flow_mod.buffer_id is 'not meaningful for OFPFC_DELETE*': a DELETE / DELETE_STRICT is valid whatever the field holds and is "
+  "not answered; whether a switch touches an outstanding buffer named there is not judged",
+  "a statistics reply that does not fit into 65535 bytes comes in several parts (OFPSF_REPLY_MORE), which are joined before they are "
+  "judged; the last part must not have the flag set; action lists are kept to 65432 bytes (with more, one entry does not fit into any reply)",
   "frames are plain Ethernet II frames with ethertype 0x88b5; flows use in_port/dl_src/dl_dst/dl_type only; counters are not judged once "
   "two equal-priority flows covered a frame, or after OFPP_TABLE/NORMAL/LOCAL outputs or non-output actions were executed",
   "a barrier request is inserted before a frame arrival that follows an un-barriered state change (frames are not ordered with respect to the control channel)",
@@ -51,7 +59,9 @@ ASSUMPTIONS = [
   "the switch may send one HELLO (after the controller's), ECHO requests and asynchronous messages at any time",
 ]
 EXHAUSTIVE_SCOPE = {
-  "quick": "single-request grid: every message type and statistics type x the listed valid/invalid bodies x 4 xids, each alone after a hello and followed by a barrier and a get-config probe",
+  "quick": "single-request grid: every message type and statistics type (and every type only a switch sends, and an error message) x the listed valid/invalid bodies x 4 xids, each alone after a hello and followed by a barrier and a get-config probe; "
+           "grids over a fixed table: out_port restrictions, unsupported actions on an entry, rewrite-action values, refused flow-mods x buffer ids, DELETE x buffer ids, "
+           "10 request shapes of 20000 / 65523 / 65524 / 65535 bytes, tables of 2-3 entries with 3000-8179 actions whose flow statistics need one or several messages",
   "thorough": "as quick, each grid request additionally preceded by a fixed warm-up history (flows, port-mod, frames), and with 3 segmentations",
 }
 
@@ -141,6 +151,53 @@ def _enc_actions(acts):
   return out
 
 
+# message types that only a switch sends (openflow.h 1.0, "Switch -> controller" / "Async message"); OFPT_ERROR apart
+S2C_TYPES = [cb.OFPT_FEATURES_REPLY, cb.OFPT_GET_CONFIG_REPLY, cb.OFPT_PACKET_IN, cb.OFPT_FLOW_REMOVED, cb.OFPT_PORT_STATUS,
+             cb.OFPT_STATS_REPLY, cb.OFPT_BARRIER_REPLY, cb.OFPT_QUEUE_GET_CONFIG_REPLY]
+HUGE_WHATS = ["echo", "vendor", "stats_unknown", "stats_vendor", "unknown_type", "set_config_overlong", "barrier_reply",
+              "flow_mod_bad_command", "packet_out_unknown_buffer", "packet_out_bad_action"]
+# 65523 is the longest request an error message can quote in full (65535 - 12)
+HUGE_SIZES = [0xffff, 0xfffe, 65528, 65524, 65523, 65520, 65000, 40000, 20000, 4096]
+
+
+def _phy_port(no, hw):
+  """ofp_phy_port, 48 bytes"""
+  return struct.pack("!H6s16sLLLLLL", no, hw, b"p%d" % no, 0, 0, 0, 0, 0, 0)
+
+
+def _s2c_body(t, v, hw):
+  """the body of a well-formed message of a switch-to-controller type, written from openflow.h 1.0; v picks a variant"""
+  if t == cb.OFPT_FEATURES_REPLY:
+    return struct.pack("!QLB3xLL", 0x99, 4, 1, 0x87, 0xfff) + b"".join(_phy_port(1 + i, hw) for i in range(v % 3))
+  if t == cb.OFPT_GET_CONFIG_REPLY:
+    return struct.pack("!HH", v % 3, 128)
+  if t == cb.OFPT_PACKET_IN:
+    data = _frame(0, 0, (14, 60, 128)[v % 3])
+    return struct.pack("!LHHBx", cb.NO_BUFFER if v % 2 else 1, len(data), 1, v % 2) + data
+  if t == cb.OFPT_FLOW_REMOVED:
+    return MATCHES[v % len(MATCHES)] + struct.pack("!QHBxLLH2xQQ", 7, 100, v % 3, 5, 0, 10, 3, 180)
+  if t == cb.OFPT_PORT_STATUS:
+    return struct.pack("!B7x", v % 3) + _phy_port(1, hw)
+  if t == cb.OFPT_STATS_REPLY:
+    k = v % 6
+    if k == cb.OFPST_DESC:
+      body = b"".join(s.ljust(n, b"\0") for s, n in ((b"mfr", 256), (b"hw", 256), (b"sw", 256), (b"1", 32), (b"dp", 256)))
+    elif k == cb.OFPST_AGGREGATE:
+      body = struct.pack("!QQL4x", 1, 64, 1)
+    elif k == cb.OFPST_TABLE:
+      body = struct.pack("!B3x32sLLLQQ", 0, b"t0", W, 100, 1, 2, 1)
+    elif k == cb.OFPST_PORT:
+      body = struct.pack("!H6x12Q", 1, *range(12))
+    else:
+      body = b""          # flow, queue: an empty list
+    return struct.pack("!HH", k, 0) + body
+  if t == cb.OFPT_BARRIER_REPLY:
+    return b""
+  if t == cb.OFPT_QUEUE_GET_CONFIG_REPLY:
+    return struct.pack("!H6x", 1) + (struct.pack("!LH2x", 1, 8) if v % 2 else b"")
+  raise HarnessError("not a switch-to-controller type: %r" % (t,))
+
+
 class Req(object):
   """One controller-to-switch message and what the specification lets the switch answer."""
   __slots__ = ("idx", "cls", "root", "mtype", "xid", "raw", "kind", "reply_type", "errors", "err_ok", "check", "answer",
@@ -184,12 +241,25 @@ class _Run(object):
     conn = self.sw.conn
     orig = conn._error_handler
     run = self
+    # how many well-framed messages the connection has taken off the stream so far (handed to the switch's handler or refused
+    # by the decoder): they are taken in the order they were fed, so this says which request a handler exception belongs to
+    # even when the history holds several byte-identical requests
+    self.consumed = 0
+    self.base = 0
 
     def handler(reason, info):
+      if reason in (conn.ERR_NO_UNPACKER, conn.ERR_BAD_LENGTH):
+        run.consumed += 1
       if reason == conn.ERR_EXCEPTION:
         run.on_handler_exception(info[0], bytes(info[1]))
       return orig(reason, info)
     conn._error_handler = handler
+    deliver = conn.on_message_received
+
+    def on_message(c, msg):
+      run.consumed += 1
+      return deliver(c, msg)
+    conn.on_message_received = on_message
 
   # ------------------------------------------------------------------ bookkeeping
   def fail(self, clause, msg, **kw):
@@ -217,7 +287,12 @@ class _Run(object):
     return lst[-1]
 
   def on_handler_exception(self, e, raw):
-    r = self.find_req(raw)
+    k = self.consumed - 1 - self.base
+    r = self.reqs[k] if 0 <= k < len(self.reqs) else None
+    if r is None or r.raw != raw or r.internal is not None:
+      # the count does not lead to this message (a decoder that frames differently): the first open request with these bytes
+      self.out.label("exception-attributed-by-bytes")
+      r = self.find_req(raw)
     if r is not None:
       r.internal = "%s in handler" % type(e).__name__
     self.fail_exc(e, "handler-exception", r, "the switch's handler for request #%s (%s, xid %s) raised %r; the exception is swallowed by "
@@ -255,6 +330,7 @@ class _Run(object):
       self.fail_exc(e, "read-raises", r, "OFConnection.read raised %r while decoding request #%s (%s, xid %s); the message is never consumed, "
                     "so the connection is wedged" % (e, r.idx if r else "?", r.cls if r else "?", r.xid if r else "?"))
       worker.receive_buf = buf[length:]
+      self.consumed += 1
       try:
         self.sw.rx_bytes(b"")
         return
@@ -300,10 +376,18 @@ class _Run(object):
       else:
         self.stream.append(m)
 
+  def next_seg(self):
+    """size of the next segment; while a lot is queued (a message of tens of kilobytes) the drawn sizes are scaled up,
+    so that such a message still arrives in pieces but not octet by octet"""
+    n = self.segs[self.segi % len(self.segs)]
+    if len(self.pending) >= 2048:
+      n *= 509
+    return n
+
   def flush(self):
     while self.pending:
       if self.segs:
-        n = self.segs[self.segi % len(self.segs)]
+        n = self.next_seg()
         self.segi += 1
       else:
         n = len(self.pending)
@@ -318,7 +402,7 @@ class _Run(object):
       self.flush()
       return
     while True:
-      n = self.segs[self.segi % len(self.segs)]
+      n = self.next_seg()
       if len(self.pending) < n:
         break
       self.segi += 1
@@ -578,11 +662,20 @@ class _Run(object):
     bid, bkind = self.resolve_buf(op.get("buf"))
     is_del = cmd in (cb.OFPFC_DELETE, cb.OFPFC_DELETE_STRICT)
     known_cmd = cmd in (0, 1, 2, 3, 4)
-    if is_del or not known_cmd:
-      bid, bkind = cb.NO_BUFFER, "none"       # buffer ids are not meaningful for DELETE
+    if not known_cmd:
+      bid, bkind = cb.NO_BUFFER, "none"
+    # OF 1.0, ofp_flow_mod.buffer_id: "Not meaningful for OFPFC_DELETE*" -- a DELETE is valid whatever the field holds
+    del_buf = is_del and bkind != "none"
     special = bool(flags & (cb.OFPFF_EMERG | cb.OFPFF_CHECK_OVERLAP)) and known_cmd and not is_del
-    bogus = bkind not in ("none", "live")
+    bogus = bkind not in ("none", "live") and not is_del
     uncertain = known_cmd and not is_del and (bool(errs) or bool(maybe) or bogus)
+    # "fill": the action list is followed by that many further outputs to port 2 (an entry whose description takes tens of
+    # kilobytes).  Only for a flow-mod nobody may refuse and that moves no packet; its match is one no frame of the history has.
+    fill = op.get("fill", 0)
+    if fill and (uncertain or special or is_del or bkind != "none"):
+      fill = 0
+    if fill:
+      mi = M_NEVER
     # "target": the flow-mod describes the k-th entry that is certainly in the table (its match and priority), so that an
     # ADD replaces it and a MODIFY / MODIFY_STRICT hits it.  Only honoured for an action list that OF 1.0 obliges the switch
     # to refuse (an unknown / vendor action type and nothing else a switch may object to); what is in the table afterwards
@@ -603,6 +696,10 @@ class _Run(object):
     if match_raw is None:
       match_raw = MATCHES[mi]
     acts_raw = _enc_actions(acts)
+    # 12 + 88 + 65432 = 65532: an entry with a longer action list cannot be reported in any stats message
+    acts_raw += cb.action_output(2) * min(fill, (65432 - len(acts_raw)) // 8)
+    if fill:
+      self.out.label("flow-mod-long-action-list:%dk" % (len(acts_raw) >> 10))
     raw = cb.flow_mod(x, match_raw, cookie=op.get("cookie", 0), command=cmd, idle_timeout=op.get("idle", 0),
                       hard_timeout=op.get("hard", 0), priority=prio, buffer_id=bid, out_port=out_port, flags=flags, actions=acts_raw)
     if not known_cmd:
@@ -628,6 +725,8 @@ class _Run(object):
       cls = "flow_mod/bad-action-on-entry" if on_entry else "flow_mod/bad-action"
     elif special:
       cls = "flow_mod/emerg-or-overlap"
+    elif del_buf:
+      cls, root = "flow_mod/delete-with-buffer-%s" % bkind, "flow_mod/delete-with-buffer"
     elif is_del:
       cls = "flow_mod/delete"
     elif maybe:
@@ -654,7 +753,13 @@ class _Run(object):
     if special and bkind != "none":
       self.out.label("refusable-flow-mod-with-buffer:cmd%d:%s" % (cmd, bkind))
     if stored is not None:
-      if kind == "none":
+      if is_del:
+        # the field means nothing here: whether a switch leaves the packet alone or runs it through the message's actions
+        # is not judged, only that the DELETE is not answered
+        sh.apply_actions(cb.decode_actions(acts_raw), stored[0], stored[1])     # for what it makes unknowable
+        sh.tx_known = False
+        sh.pool.forget(bid)
+      elif kind == "none":
         if sh.dirty["ports"]:
           sh.tx_known = False
         sh.apply_actions(cb.decode_actions(acts_raw), stored[0], stored[1])
@@ -800,7 +905,22 @@ class _Run(object):
       name = "flow" if t == cb.OFPST_FLOW else "aggregate"
       inner = self.chk_flow_stats(mi, table_id, out_port) if t == cb.OFPST_FLOW else self.chk_aggregate(mi, table_id, out_port)
       other = table_id not in (0, 0xff)
-      self.add("stats/%s%s" % (name, "-other-table" if other else ""), cb.stats_request(x, t, body, flags), "reply",
+      cls = "stats/%s%s" % (name, "-other-table" if other else "")
+      if t == cb.OFPST_FLOW and not other:
+        # an ofp_flow_stats entry is 88 bytes plus its actions, a message holds at most 65535: what does not fit into one
+        # reply has to come in several (OFPSF_REPLY_MORE); the parts are put together again before they are judged
+        # (the class names what the violation keys name, so it is taken generously: entries that may or may not be in the
+        # table count, and once the shadow has lost track of the table -- after a flow-mod with EMERG / CHECK_OVERLAP or an
+        # uncertain MODIFY -- so does room for one entry with three of the longest generated actions per request of a history)
+        certain, unsure = self._flow_view(mi, table_id, out_port)
+        size = 12 + sum(88 + len(f.actions_raw) for f in certain + unsure)
+        if size > 0xffff:
+          cls = "stats/flow-over-64k"
+          self.out.label("flow-stats-needs-several-parts:%d-entries" % len(certain + unsure))
+        elif not sh.table_known and size + 40 * (88 + 3 * 16) > 0xffff:
+          cls = "stats/flow-over-64k"
+          self.out.label("flow-stats-may-need-several-parts")
+      self.add(cls, cb.stats_request(x, t, body, flags), "reply",
                reply_type=cb.OFPT_STATS_REPLY, err_ok=other, check=self.chk_stype(t, inner))
     elif t == cb.OFPST_TABLE:
       self.add("stats/table", cb.stats_request(x, t, b"", flags), "reply", reply_type=cb.OFPT_STATS_REPLY,
@@ -822,11 +942,84 @@ class _Run(object):
       self.add("stats/unknown-type", cb.stats_request(x, t, op.get("body", b""), flags), "error", reply_type=cb.OFPT_STATS_REPLY,
                errors={(cb.OFPET_BAD_REQUEST, cb.OFPBRC_BAD_STAT)})
 
+  def op_s2c(self, op):
+    """A message type that only a switch sends (features / get-config / stats / barrier / queue-get-config reply, packet-in,
+    flow-removed, port-status) arriving at the switch: openflow.h, OFPBRC_BAD_TYPE "ofp_header.type not supported".
+    Well-formed by the 1.0 layouts, or with an arbitrary body (then OFPBRC_BAD_LEN is as good an answer)."""
+    x = op["xid"]
+    t = S2C_TYPES[op["t"] % len(S2C_TYPES)]
+    name = cb.TYPE_NAMES.get(t, "type%d" % t)
+    bad_type = {(cb.OFPET_BAD_REQUEST, cb.OFPBRC_BAD_TYPE)}
+    if op.get("body") is None:
+      raw = cb.message(t, x, _s2c_body(t, op.get("v", 0), self.sh.ports[1]["hw_addr"]))
+      try:
+        cb.decode(raw)
+      except cb.DecodeError as e:
+        raise HarnessError("the harness's own %s is not well-formed: %s" % (name, e))
+      self.add("s2c/%s" % name, raw, "error", errors=bad_type, root="not-a-request-type")
+    else:
+      raw = cb.message(t, x, op["body"])
+      self.add("s2c/%s-arbitrary-body" % name, raw, "error", errors=bad_type | {(cb.OFPET_BAD_REQUEST, cb.OFPBRC_BAD_LEN)},
+               root="not-a-request-type")
+
+  def op_errmsg(self, op):
+    """An OFPT_ERROR sent to the switch (the controller's side of a failed HELLO exchange, or any other): it asks for
+    nothing.  Nothing or one error is accepted; an internal failure is not."""
+    body = struct.pack("!HH", op.get("etype", 0), op.get("code", 0)) + op.get("data", b"")
+    self.add("error-message", cb.message(cb.OFPT_ERROR, op["xid"], body), "maybe", root="not-a-request-type")
+
+  def op_huge(self, op):
+    """A request of tens of kilobytes, up to the 65535 a length field can say: it is judged like a small one.  An error
+    message cannot quote all of it (12 bytes of its own): "at least 64 bytes" of the request is what OF 1.0 asks for."""
+    sh = self.sh
+    x, what = op["xid"], op["what"]
+    size = max(1024, min(0xffff, op.get("size", 0xffff)))
+    n8 = lambda fixed: max(0, (size - fixed) // 8)
+    root = "huge-request-refused"
+    self.out.label("huge:%s:%s" % (what, ">=65524" if size >= 65524 else "<65524"))
+    if what == "echo":
+      body = (bytes(range(256)) * 257)[x & 0xff:][:size - 8]
+      self.add("huge/echo_request", cb.echo_request(x, body), "reply", reply_type=cb.OFPT_ECHO_REPLY, check=self.chk_echo(body))
+    elif what == "vendor":
+      self.add("huge/vendor", cb.vendor(x, 0x2320, b"\0" * (size - 12)), "error", reply_type=cb.OFPT_VENDOR,
+               errors={(cb.OFPET_BAD_REQUEST, cb.OFPBRC_BAD_VENDOR)}, root=root)
+    elif what == "stats_unknown":
+      self.add("huge/stats-unknown-type", cb.stats_request(x, 0x77, b"\1" * (size - 12)), "error", reply_type=cb.OFPT_STATS_REPLY,
+               errors={(cb.OFPET_BAD_REQUEST, cb.OFPBRC_BAD_STAT)}, root=root)
+    elif what == "stats_vendor":
+      self.add("huge/stats-vendor", cb.stats_request(x, cb.OFPST_VENDOR, cb.vendor_stats_request_body(0x2320, b"\2" * (size - 16))), "error",
+               reply_type=cb.OFPT_STATS_REPLY, errors={(cb.OFPET_BAD_REQUEST, cb.OFPBRC_BAD_STAT), (cb.OFPET_BAD_REQUEST, cb.OFPBRC_BAD_VENDOR)}, root=root)
+    elif what == "unknown_type":
+      self.add("huge/unknown-message-type", cb.message(99, x, b"\3" * (size - 8)), "error", errors={(cb.OFPET_BAD_REQUEST, cb.OFPBRC_BAD_TYPE)})
+    elif what == "set_config_overlong":
+      self.add("huge/badlen-set_config+", cb.message(cb.OFPT_SET_CONFIG, x, struct.pack("!HH", 0, 99) + b"\0" * (size - 12)), "error",
+               errors={(cb.OFPET_BAD_REQUEST, cb.OFPBRC_BAD_LEN)})
+    elif what == "barrier_reply":
+      self.add("huge/s2c-barrier_reply-arbitrary-body", cb.message(cb.OFPT_BARRIER_REPLY, x, b"\4" * (size - 8)), "error",
+               errors={(cb.OFPET_BAD_REQUEST, cb.OFPBRC_BAD_TYPE), (cb.OFPET_BAD_REQUEST, cb.OFPBRC_BAD_LEN)}, root="not-a-request-type")
+    elif what == "flow_mod_bad_command":
+      raw = cb.flow_mod(x, MATCHES[M_NEVER], command=0x77, actions=cb.action_output(2) * n8(72))
+      self.add("huge/flow_mod-bad-command", raw, "error", errors={(cb.OFPET_FLOW_MOD_FAILED, cb.OFPFMFC_BAD_COMMAND)}, root=root)
+    elif what == "packet_out_unknown_buffer":
+      bid, bkind = self.resolve_buf({"k": "unknown", "i": op.get("i", 0)})
+      raw = cb.packet_out(x, buffer_id=bid, in_port=cb.OFPP_NONE, actions=cb.action_output(2) * n8(16))
+      self.add("huge/packet_out-buffer-unknown", raw, "error", errors=E_BUF_UNKNOWN, root=root)
+    elif what == "packet_out_bad_action":
+      # the unsupported action comes first: nothing may be sent before the refusal (whether anything is sent at all is not judged)
+      data = _frame(0, 0, 60) + b"\x5a" * (size - 16 - 8 - 60)
+      raw = cb.packet_out(x, in_port=1, actions=cb.action_raw(12), data=data)
+      sh.tx_known = False
+      self.add("huge/packet_out-bad-action", raw, "error", errors=E_BADACT, root=root)
+    else:
+      raise HarnessError("unknown huge request %r" % (what,))
+
   def chk_stype(self, t, inner):
     def check(m, fail):
       if m.get("stype") != t:
         fail("stats-reply-type", "stats reply of type %s answers a request of type %d" % (m.get("stype"), t))
         return
+      if m.get("more"):
+        fail("stats-reply-unfinished", "the last part of the stats reply has OFPSF_REPLY_MORE set: the reply never ends")
       if "malformed" in m:
         return
       if inner is not None:
@@ -921,6 +1114,12 @@ class _Run(object):
                errors={(cb.OFPET_BAD_REQUEST, cb.OFPBRC_BAD_TYPE)})
     elif o == "badlen":
       self.op_badlen(op)
+    elif o == "s2c":
+      self.op_s2c(op)
+    elif o == "errmsg":
+      self.op_errmsg(op)
+    elif o == "huge":
+      self.op_huge(op)
     elif o == "frame":
       self.op_frame(op)
     else:
@@ -966,6 +1165,8 @@ class _Run(object):
         if len(data) >= 8:
           def score(k):
             raw = reqs[k].raw
+            if raw[:len(data)] == data:
+              return len(data)
             return sum(1 for a, b in zip(raw, data) if a == b)
           cands = [k for k in range(len(reqs)) if reqs[k].raw[:8] == data[:8] and reqs[k].internal is None
                    and (reqs[k].answer is not None or k >= i)]
@@ -1093,6 +1294,7 @@ class _Run(object):
           sorted(p["port_no"] for p in ports), self.nports))
       return
     self.sh = SwitchShadow(self.maxb, self.msl0, ports)
+    self.base = self.consumed
     for op in self.case["ops"]:
       self.run_op(op)
     # closing barrier: after its reply everything must have been answered
@@ -1219,7 +1421,45 @@ def _grid_ops():
     ops.append({"o": "badlen", "what": what})
   ops.append({"o": "packet_out", "acts": [["out", 1, 0]]})
   ops.append({"o": "packet_out", "data": [0, 0, 14], "in_port": cb.OFPP_NONE, "acts": [["out", 1, 0]]})
+  # message types that only a switch sends, well-formed and with bodies of the wrong size; an error message
+  for t in range(len(S2C_TYPES)):
+    for v in range(6 if S2C_TYPES[t] == cb.OFPT_STATS_REPLY else 3):
+      ops.append({"o": "s2c", "t": t, "v": v})
+    for body in (b"", b"\0" * 4, b"\xff" * 12):
+      ops.append({"o": "s2c", "t": t, "body": body})
+  for etype, code, data in ((0, 0, b"incompatible"), (1, 1, cb.barrier_request(5)), (0xffff, 0xffff, b""), (1, 6, b"\0" * 64)):
+    ops.append({"o": "errmsg", "etype": etype, "code": code, "data": data})
+  # DELETE and DELETE_STRICT with a buffer id of every kind: the field is not meaningful there
+  for cmd in (3, 4):
+    for buf in ({"k": "zero"}, {"k": "unknown", "i": 0}, {"k": "unknown", "i": 3}, {"k": "used", "i": 0}, {"k": "live", "i": 0}):
+      ops.append({"o": "flow_mod", "m": 1, "cmd": cmd, "prio": 10, "buf": buf, "acts": []})
+      ops.append({"o": "flow_mod", "m": 0, "cmd": cmd, "prio": 10, "buf": buf, "acts": [["out", 2, 0]]})
   return ops
+
+
+def _huge_grid(tier):
+  """every request shape that can be tens of kilobytes long x sizes around the most an error message can quote (65523)"""
+  sizes = HUGE_SIZES if tier == "thorough" else [0xffff, 65524, 65523, 20000]
+  for what in HUGE_WHATS:
+    for size in sizes:
+      yield [{"o": "huge", "xid": 0x81, "what": what, "size": size}]
+
+
+def _long_entries_grid(tier):
+  """k entries with n actions each (n <= 8179: the longest entry one stats message can hold), then flow statistics over all
+  of them, over those that output to port 2, aggregate and table statistics"""
+  shapes = [(1, 3000), (2, 4000), (3, 3000), (2, 5000), (4, 2700), (1, 8179), (2, 8179), (9, 1000)]
+  if tier != "thorough":
+    shapes = [(2, 4000), (3, 3000), (2, 8179)]
+  for k, n in shapes:
+    ops = [{"o": "flow_mod", "xid": 0x90 + i, "m": 0, "cmd": 0, "prio": 100 + i, "cookie": i, "acts": [["out", 1, 0]], "fill": n} for i in range(k)]
+    ops.append({"o": "barrier", "xid": 0x9f})
+    ops.append({"o": "stats", "xid": 0xa0, "t": cb.OFPST_FLOW, "m": 0})
+    ops.append({"o": "stats", "xid": 0xa1, "t": cb.OFPST_AGGREGATE, "m": M_NEVER})
+    ops.append({"o": "stats", "xid": 0xa2, "t": cb.OFPST_FLOW, "m": M_NEVER, "table": 0, "out_port": 2})
+    ops.append({"o": "stats", "xid": 0xa3, "t": cb.OFPST_TABLE})
+    ops.append({"o": "flow_mod", "xid": 0xa4, "m": M_NEVER, "cmd": 3, "acts": []})
+    yield ops
 
 
 _WARMUP = [
@@ -1266,6 +1506,14 @@ def _refusal_grid():
           o = {"o": "flow_mod", "cmd": cmd, "buf": buf, "acts": acts, "cookie": 3}
           o.update(cause)
           yield o
+
+
+def _delete_buffer_grid():
+  """DELETE / DELETE_STRICT naming an outstanding, a used, a never issued and the zero buffer id (after _BUFFER_WARMUP)"""
+  for cmd in (3, 4):
+    for buf in ({"k": "live", "i": 0}, {"k": "used", "i": 0}, {"k": "unknown", "i": 0}, {"k": "unknown", "i": 3}, {"k": "zero"}):
+      for acts in ([], [["out", 3, 0]]):
+        yield {"o": "flow_mod", "cmd": cmd, "m": 1, "prio": 7, "buf": buf, "acts": acts}
 
 
 def _buffer_code_grid():
@@ -1347,13 +1595,13 @@ def _rewrite_action_grid(tier):
 
 def _enum(tier):
   xids = [0, 1, 0x80000000, 0xffffffff]
-  for grid in (_out_port_grid, _bad_action_on_entry_grid, _rewrite_action_grid):
+  for grid in (_out_port_grid, _bad_action_on_entry_grid, _rewrite_action_grid, _huge_grid, _long_entries_grid):
     for ops in grid(tier):
       for seg in ([], [7, 3]) if tier == "thorough" else ([],):
         yield {"max_buffers": 2, "miss_send_len": 128, "seg": seg, "ops": _OUTPUT_WARMUP + ops + _PROBES}
   for maxb, ops in _buffer_code_grid():
     yield {"max_buffers": maxb, "miss_send_len": 128, "seg": [], "ops": ops + _PROBES}
-  for o in _refusal_grid():
+  for o in list(_refusal_grid()) + list(_delete_buffer_grid()):
     for x in ((5, 0xffffffff) if tier == "thorough" else (5,)):
       o2 = dict(o)
       o2["xid"] = x
@@ -1431,6 +1679,20 @@ def _s_op():
     _fd(o=J("unknown"), xid=x, t=st.integers(0, 233), body=_s_body(8)),
     _fd(o=J("qgc"), xid=x, port=_s_port(2)),
   )
+  # what is no request at all: a type only a switch sends (well-formed, or with an arbitrary body), an error message
+  notreq = st.one_of(
+    _fd(o=J("s2c"), xid=x, t=st.integers(0, len(S2C_TYPES) - 1), v=st.integers(0, 5)),
+    _fd(o=J("s2c"), xid=x, t=st.integers(0, len(S2C_TYPES) - 1), v=st.integers(0, 5)),
+    _fd(o=J("s2c"), xid=x, t=st.integers(0, len(S2C_TYPES) - 1), body=_s_body(72)),
+    _fd(o=J("errmsg"), xid=x, etype=st.sampled_from([0, 1, 2, 3, 4, 5, 6, 0xffff]), code=st.sampled_from([0, 1, 6, 8, 0xffff]), data=_s_body(72)),
+  )
+  huge = _fd(o=J("huge"), xid=x, what=st.sampled_from(HUGE_WHATS), i=st.integers(0, 4),
+             size=st.one_of(st.sampled_from(HUGE_SIZES), st.sampled_from(HUGE_SIZES), st.integers(65500, 0xffff), st.integers(1024, 0xffff)))
+  # entries whose action lists take tens of kilobytes (88 + 8n bytes in a flow-statistics reply; 8179 is the most one message holds)
+  flow_long = _fd(o=J("flow_mod"), xid=x, m=J(0), cmd=st.sampled_from([0, 0, 0, 1, 2]), prio=st.sampled_from([0, 1, 2, 3, 100, 0x8000, 0xffff]),
+                  cookie=st.sampled_from([0, 1]), idle=J(0), hard=J(0), flags=J(0), out_port=J(cb.OFPP_NONE),
+                  acts=st.sampled_from([[], [["out", 1, 0]], [["rw", 4, 1]]]), buf=J(None),
+                  fill=st.sampled_from([1000, 2700, 2700, 3000, 4000, 4000, 5000, 8179]))
   barrier = _fd(o=J("barrier"), xid=x)
   set_config = _fd(o=J("set_config"), xid=x, flags=st.sampled_from([0, 0, 0, 1, 2, 3, 0xffff]), len=st.sampled_from([0, 14, 64, 128, 1000, 0xffff]))
   port_mod = _fd(o=J("port_mod"), xid=x, port=_s_port(4), hw=st.sampled_from(["ok", "ok", "ok", "ok", "bad"]),
@@ -1495,7 +1757,8 @@ def _s_op():
                fill=st.sampled_from([0, 0, 0xff, 1]), m=st.integers(0, 7), port=st.sampled_from([cb.OFPP_NONE, 1, 2]))
   # Hypothesis flattens nested one_of()s, so the mix is drawn explicitly: (weight, strategy)
   table = [(10, simple), (14, barrier), (4, set_config), (7, port_mod), (14, flow_ok), (6, pout_ok), (8, flow_mod), (1, wipe),
-           (8, packet_out), (18, stats), (16, frame), (4, flow_refused), (2, flow_keep), (7, badlen), (3, flow_bad_on_entry)]
+           (8, packet_out), (18, stats), (16, frame), (4, flow_refused), (2, flow_keep), (7, badlen), (3, flow_bad_on_entry),
+           (4, notreq), (1, huge), (1, flow_long)]
   kinds = []
   for i, (wgt, _) in enumerate(table):
     kinds += [i] * wgt
@@ -1520,4 +1783,4 @@ def plan(tier):
     return [Enum("request-grid", lambda: _enum("quick"), shards=16),
             Hyp("histories", lambda: _strategy(tier), examples=3200, shards=16)]
   return [Enum("request-grid", lambda: _enum("thorough"), shards=16),
-          Hyp("histories", lambda: _strategy(tier), examples=240000, shards=16)]
+          Hyp("histories", lambda: _strategy(tier), examples=150000, shards=16)]
